@@ -52,8 +52,13 @@ func (s *synchronizer) sync(_ context.Context, res Response) (Response, bool, er
 
 	s.cycle.counter++
 
-	if !res.Ack {
-		s.cycle.res.Ack = false
+	// A single-node iterator acknowledges a command if any of its channels could execute
+	// it; across nodes that is a disjunction. Errors are kept.
+	if res.Ack {
+		s.cycle.res.Ack = true
+	}
+	if res.Error != nil && s.cycle.res.Error == nil {
+		s.cycle.res.Error = res.Error
 	}
 
 	fulfilled := s.cycle.counter == s.nodeCount
@@ -61,5 +66,5 @@ func (s *synchronizer) sync(_ context.Context, res Response) (Response, bool, er
 		s.cycle.counter = 0
 	}
 
-	return res, fulfilled, nil
+	return s.cycle.res, fulfilled, nil
 }
